@@ -22,11 +22,17 @@ extern "C" const char* __tsan_default_options() { return "exitcode=66:halt_on_er
 struct Out { bool ok; int status; std::vector<std::string> results; std::string err; };
 
 static Out run_child(const std::vector<int>& prog) {
-  int pd[2], pe[2];
-  if (pipe(pd) || pipe(pe)) { Out o; o.ok = false; o.status = -1; return o; }
+  // results come back through a pipe (small); the child's stderr (ThreadSanitizer reports can be large) goes to an unlinked
+  // temporary file — a second pipe would deadlock: the child blocks writing a long report while the parent waits for results
+  int pd[2];
+  char tmpl[] = "/tmp/vf_tsan_XXXXXX";
+  int ef = mkstemp(tmpl);
+  if (ef >= 0) unlink(tmpl);
+  if (pipe(pd) || ef < 0) { Out o; o.ok = false; o.status = -1; return o; }
   pid_t pid = fork();
   if (pid == 0) {
-    close(pd[0]); close(pe[0]); dup2(pe[1], 2);
+    close(pd[0]); dup2(ef, 2);
+    alarm(120);  // a hang is reported as an abnormal exit, never waited for
     const int n = (int)prog.size();
     static unsigned char bufs[8][1 << 16];
     int lens[8] = {0};
@@ -43,17 +49,16 @@ static Out run_child(const std::vector<int>& prog) {
     close(pd[1]);
     exit(0);  // normal exit: the TSan runtime turns it into 66 if it reported anything
   }
-  close(pd[1]); close(pe[1]);
+  close(pd[1]);
   Out o; o.ok = true;
   for (size_t t = 0; t < prog.size(); ++t) {
     int len = 0; if (read(pd[0], &len, sizeof len) != (ssize_t)sizeof len) { o.ok = false; break; }
     std::string s(len, '\0'); int got = 0; while (got < len) { ssize_t r = read(pd[0], &s[got], len - got); if (r <= 0) break; got += (int)r; }
     o.results.push_back(s);
   }
-  char eb[4096]; ssize_t r;
-  while ((r = read(pe[0], eb, sizeof eb)) > 0) if (o.err.size() < 3000) o.err.append(eb, eb + r);
-  close(pd[0]); close(pe[0]);
+  close(pd[0]);
   int st = 0; waitpid(pid, &st, 0); o.status = st;
+  { char eb[3000]; ssize_t r = pread(ef, eb, sizeof eb, 0); if (r > 0) o.err.assign(eb, eb + r); close(ef); }
   if (!WIFEXITED(st) || WEXITSTATUS(st) != 0) o.ok = false;
   return o;
 }
